@@ -39,7 +39,7 @@ evars == <<pc, cfg, ffq, ff, pend, valid, invalid, seed, cur, flag, e1, e2, buf,
 ---------------------------------------------------------------------------
 NoStream == [id |-> "none", src |-> "none"]
 NoErr    == [class |-> "none", site |-> "", msg |-> ""]
-NoObs    == [sig |-> "none", site |-> "", msg |-> "", ended |-> "running", nfw |-> "", draws |-> <<>>]
+NoObs    == [sig |-> "none", site |-> "", msg |-> "", ended |-> "running", nfw |-> "", draws |-> <<>>, msgs |-> {}]
 NoRep    == [kind |-> "none", valid |-> -1, seed |-> Zero, hasseed |-> FALSE, failfile |-> "", msg |-> ""]
 NoCur    == [kind |-> "none", stream |-> NoStream, obs |-> NoObs]
 
@@ -170,7 +170,9 @@ V_Ret(err) ==
   \cup If(~IsFail(exp) /\ IsFail(err), "phantom_failure")
   \cup If(~IsFail(exp) /\ ~IsFail(err) /\ exp.class # err.class, "skip_misjudged")
   \cup If(IsFail(exp) /\ IsFail(err) /\ exp.class # err.class, "failure_class")
-  \cup If(IsFail(exp) /\ IsFail(err) /\ exp.msg # "" /\ exp.msg # err.msg, "failure_message")
+  \* (several failure signals in one test case: which of their messages names the failure is the code's choice -- it must be one of them;
+  \*  "" stands for a message the harness does not know, e.g. a runtime error's)
+  \cup If(IsFail(exp) /\ IsFail(err) /\ cur.obs.msgs # {} /\ "" \notin cur.obs.msgs /\ err.msg \notin cur.obs.msgs, "failure_message")
   \cup If(cur.kind \in {"ff1", "ff2"} /\ ~IsFail(exp) /\ IsFail(err), "ff_phantom_failure")   \* a fail file that does not falsify the property must not fail the test
 
 E_Ret(err) ==
@@ -355,7 +357,7 @@ V_RunEnd(failed, failnow) ==
   \cup If(rep.kind \in {"failed", "panic"} /\ ~mon.finalRan, "no_final_replay")
   \cup If(rep.kind \in {"failed", "panic"} /\ mon.finalRan /\ mon.finalObs.sig = "none", "final_replay_passes")
   \cup If(rep.kind \in {"failed", "panic"} /\ mon.finalRan /\ mon.finalObs.sig # "none"
-            /\ mon.finalObs.msg # "" /\ mon.finalObs.msg # rep.msg, "final_replay_other_failure")
+            /\ mon.finalObs.msgs # {} /\ "" \notin mon.finalObs.msgs /\ rep.msg \notin mon.finalObs.msgs, "final_replay_other_failure")
   \cup If(rep.kind \in {"failed", "panic"} /\ mon.finalRan /\ mon.finalObs.sig # "none"
             /\ Expect(mon.finalObs).site # Expect(mon.firstObs).site, "failure_site_changed")
   \cup If(rep.kind \in {"failed", "panic"} /\ mon.finalRan /\ mon.tbDraws # mon.finalObs.draws, "draws_mislogged")
